@@ -29,6 +29,15 @@ def main(out):
     opts.follow_imports = "silent"
     opts.show_traceback = False
     opts.python_version = sys.version_info[:2]
+    # opt-in code the project does not enable: definite-assignment (UnboundLocalError) candidates
+    opts.enable_error_code = ["possibly-undefined"]
+    opts.enabled_error_codes = set()
+    try:
+        from mypy import errorcodes
+
+        opts.enabled_error_codes = {errorcodes.POSSIBLY_UNDEFINED}
+    except Exception:
+        pass
     sources = create_source_list(["sqlglot"], opts)
     res = build.build(sources=sources, options=opts)
     types = res.types
@@ -80,7 +89,7 @@ def main(out):
                                     stack.append(y)
         by_mod[modname] = d
     with open(out, "w") as fh:
-        json.dump({"errors": len(res.errors), "n_types": n, "wall_s": round(time.time() - t0, 1), "modules": by_mod}, fh)
+        json.dump({"errors": len(res.errors), "messages": [e for e in res.errors if "possibly-undefined" in e], "n_types": n, "wall_s": round(time.time() - t0, 1), "modules": by_mod}, fh)
     sys.stdout.flush()
     os._exit(0)
 
